@@ -44,6 +44,7 @@ pub fn run_c10(ctx: &mut Ctx) {
          transports whose poll_write / poll_write_vectored accept 1..n bytes (cutting inside the header, at the seams, inside padding) or return Pending; flush calls between writes. Oracle: independent record decoder on the byte log. \
          Non-trivial: >= 2 pollers or a short-write/pending answer occurred; distinct by case");
     let mut rng = ctx.rng.fork();
+    crate::exec::witness_corpus(&["C10_"], &mut log, &mut im, &mut or);
     // corpus first: minimised past failures
     let corpus = std::path::Path::new(env!("CARGO_MANIFEST_DIR")).join("../corpus/C10.txt");
     if let Ok(text) = std::fs::read_to_string(&corpus) {
@@ -196,6 +197,7 @@ pub fn run_c09(ctx: &mut Ctx) {
         "3 roles x stream contents and segmentations (with management records mid-stream) x handler sequences of poll_read(len 0..n) / poll_fill_buf + consume(k) / set_stream / writeable() / output_stream x read answers 1..n bytes or Pending at any call x write answers 1..n or Pending during reply flushing; \
          is_writeable() sampled after every poll. Oracle: bytes returned per active stream vs what was sent, EOF persistence, writeable gate, replies in the byte log. Non-trivial: stream content or noise present; distinct by case");
     let mut rng = ctx.rng.fork();
+    crate::exec::witness_corpus(&["C09_"], &mut log, &mut im, &mut or);
     for ci in 0..ctx.n(2000, 12_000) {
         if or.saturated() { or.count("stopped_early_saturated"); break; }
         let mc = 1 + rng.usize_below(200);
